@@ -124,7 +124,10 @@ def run(cmd, timeout=600, env=None, stdout=None, cwd=None, check=True):
 
 # ----------------------------------------------------------------------------- TLC
 
-_tlc_n = [0]
+import itertools
+import threading
+_tlc_n = itertools.count(1)
+_tlc_lock = threading.Lock()
 
 
 class TlcResult:
@@ -148,8 +151,9 @@ class TlcResult:
 def tlc(module, cfg, workers=1, timeout=900, env=None, simulate=None, depth=None, coverage=False,
         seed=None, xmx="8g", deque=False, printed_to=None, cwd=SPEC, extra=()):
     """Run TLC on spec/<module>.tla with spec/<cfg>; returns TlcResult."""
-    _tlc_n[0] += 1
-    meta = os.path.join(BUILD, "tlc", "%s-%d-%d" % (os.path.basename(cfg), os.getpid(), _tlc_n[0]))
+    with _tlc_lock:
+        k = next(_tlc_n)
+    meta = os.path.join(BUILD, "tlc", "%s-%d-%d" % (os.path.basename(cfg), os.getpid(), k))
     shutil.rmtree(meta, ignore_errors=True)
     os.makedirs(meta, exist_ok=True)
     java = ["java", "-XX:+UseParallelGC", "-Xmx" + xmx, "-Xss64m"]
